@@ -140,17 +140,23 @@ pub fn c12(j: &mut Judge, v: &StepView) {
             None => (String::new(), String::new()),
         }
     };
-    let variant = j.pick(4);
+    let variant = j.pick(6);
     let (ar, aa) = match variant {
         0 => same_rate(&cfg.ask_fee),
         1 => ("0.07".to_string(), "feeacct9".to_string()),
         2 => (String::new(), String::new()),
+        // the installed rate in another spelling with an empty account / an empty rate with
+        // the installed account
+        4 => (same_rate(&cfg.ask_fee).0, String::new()),
+        5 => (String::new(), same_rate(&cfg.ask_fee).1),
         _ => same_rate(&cfg.ask_fee),
     };
     let (br, ba) = match variant {
         0 => same_rate(&cfg.bid_fee),
         1 => same_rate(&cfg.bid_fee),
         2 => ("0.02".to_string(), "feeacct8".to_string()),
+        4 => (same_rate(&cfg.bid_fee).0, String::new()),
+        5 => (String::new(), same_rate(&cfg.bid_fee).1),
         _ => (String::new(), String::new()),
     };
     let mut more_approvers = cfg.approvers.clone();
@@ -159,7 +165,7 @@ pub fn c12(j: &mut Judge, v: &StepView) {
     let approvers = if variant % 2 == 0 { more_approvers } else { fewer_approvers };
     let mut executors = cfg.executors.clone();
     executors.reverse();
-    let ask_attrs = if variant < 2 { cfg.ask_attrs.clone() } else { vec!["attr.new".to_string()] };
+    let ask_attrs = if variant < 2 || variant == 4 { cfg.ask_attrs.clone() } else { vec!["attr.new".to_string()] };
     let bid_attrs = if variant >= 2 { cfg.bid_attrs.clone() } else { vec![] };
     let non_empty_book = !v.after.asks.is_empty() || !v.after.bids.is_empty();
     for mask in 0u32..256 {
